@@ -342,6 +342,10 @@ def _task_entry(args):
     prop = _PROP
     subs = {s.name: s for s in _SUBS}
     os.environ["PYTHONHASHSEED"] = os.environ.get("PYTHONHASHSEED", "0")
+    if multiprocessing.current_process().name != "MainProcess" and not getattr(prop, "KEEP_CPU_COUNT", False):
+        # the library sizes its thread pools with os.cpu_count(); 16 shard processes x 16 threads only thrash
+        # (schedule independence is C06's subject, which opts out of this substitution)
+        os.cpu_count = lambda: 2
     if multiprocessing.current_process().name != "MainProcess":
         # native solvers (GLPK) print to the C-level stdout; workers report through the pool only
         try:
